@@ -4,6 +4,7 @@ import (
 	"fmt"
 	"math"
 	"sort"
+	"strings"
 
 	. "rdmverif/engine"
 	"rdmverif/svc"
@@ -134,6 +135,9 @@ func c18Check(c *Case) []Violation {
 		}
 		return []Violation{viol(c, "C18/rejected/"+asS(last["name"]), "%s failed: %v", asS(last["name"]), t.err)}
 	}
+	if v := alteredReport(c, "C18", asS(last["name"]), t, bs); v != nil {
+		return v
+	}
 	if asS(last["name"]) == "criteriaMixing" {
 		return c18Mixing(c, req, props, t, script != nil)
 	}
@@ -176,6 +180,41 @@ func c18Common(c *Case, tag string, t trans, newID string) []Violation {
 	}
 	if !sameStrings(altIDs(prev.Considered), altIDs(next.Considered)) || !sameStrings(altIDs(prev.NotConsidered), altIDs(next.NotConsidered)) {
 		vs = append(vs, viol(c, "C18/"+tag+"/split-changed", "considered/not considered changed"))
+	}
+	// the parameters are EXTENDED: every entry and option they had before (weights of the old criteria, draw policy,
+	// current choice, seeds, level function and its coefficients, thresholds of the old criteria ...) is still there
+	// with the same value. Positional parameter sets (OWA weights, Choquet capacities) are re-indexed by design: skipped.
+	switch asS(asM(c.Req)["preferenceFunction"]) {
+	case "owa", "choquetIntegral":
+	default:
+		var lost []string
+		for path, v := range prev.ParamLeaves {
+			if strings.HasSuffix(path, "#len") {
+				continue
+			}
+			if i := strings.IndexAny(path, "{["); i >= 0 {
+				// a container: compare only when the next parameters keep it in the same representation (the level
+				// functions replace the request's raw parameter map by a typed value — not a loss)
+				same := false
+				for np := range next.ParamLeaves {
+					if strings.HasPrefix(np, path[:i+1]) {
+						same = true
+						break
+					}
+				}
+				if !same {
+					stat("params_container_changed_representation")
+					continue
+				}
+			}
+			if nv, ok := next.ParamLeaves[path]; !ok || nv != v {
+				lost = append(lost, fmt.Sprintf("%s: %s -> %s", path, v, next.ParamLeaves[path]))
+			}
+		}
+		if len(lost) > 0 {
+			sort.Strings(lost)
+			vs = append(vs, viol(c, "C18/"+tag+"/params-not-an-extension", "method parameters after the addition are not the previous ones plus entries for the new criterion: %v", lost))
+		}
 	}
 	return vs
 }
@@ -468,6 +507,8 @@ func c18Run(s *Shard) {
 	mix := bias("criteriaMixing", refStrategy(M{"randomSeed": 7, "mixingRatio": 0.5}, 0))
 	om := bias("criteriaOmission", M{"ratio": 0.5})
 	prefixes = append(prefixes, []M{conc, conc}, []M{mix, mix}, []M{conc, mix}, []M{om, om})
+	prefixes = append(prefixes, ownPrefixes(conc)[:4]...)
+	prefixes = append(prefixes, ownPrefixes(mix)[:4]...)
 	var variants []M
 	for strat := 0; strat < 3; strat++ {
 		imps := []float64{0.5}
@@ -503,10 +544,13 @@ func c18Run(s *Shard) {
 	sampled := false
 	for _, method := range allMethods {
 		for _, subset := range []bool{false, true} {
-			for variant := 0; variant < 5; variant++ { // observed range, declared range, c1 strictly negative, types left out, weights at 1e-10 scale
+			for variant := 0; variant < 6; variant++ { // observed range, declared range, c1 strictly negative, types left out, weights at 1e-10 scale, never-considered alternatives beyond both ends
 				root := rootRequest(method, subset, variant == 1)
 				if variant == 2 {
 					root = negativeVariant(root)
+				}
+				if variant == 5 {
+					root = wideVariant(root)
 				}
 				if variant == 4 {
 					switch method {
